@@ -1007,7 +1007,12 @@ def _rand_ws(r):
 
 
 def _rand_comment_text(r):
-    return "".join(r.choice("abc xyz01_+-;.#@$\"'π") for _ in range(r.randint(0, 8)))
+    t = "".join(r.choice("abc xyz01_+-;.#@$\"'π/!*") for _ in range(r.randint(0, 8)))
+    # may start with `/`, `*`, `!` (banner and doc-comment spellings `/*/ x */`, `/** x */`, `/// x`, `//! x`); never
+    # opens or closes a block comment inside, never ends in `/` or `*`
+    if "/*" in t or "*/" in t or t.endswith(("/", "*")):
+        return t.replace("*", "x").rstrip("/")
+    return t
 
 
 def _rand_sep(r, may_be_empty):
@@ -1128,8 +1133,14 @@ def rename(src, seed, lex_line=None):
         if k == "ident" and t not in RESERVED and not (prev is not None and prev[0] in ("num", "str")):
             if t not in mapping:
                 while True:
-                    style = r.randint(0, 3)
-                    if style == 0:
+                    style = r.randint(0, 4)
+                    if style == 4:
+                        # fresh identifiers that START like a keyword, a directive, a type or a unit and go on with a
+                        # digit / underscore / letter: still ordinary identifiers
+                        cand = r.choice(["pragma", "OPENQASM", "include", "int", "gate", "def", "dim", "im", "ns", "dt", "measure",
+                                         "reset", "let", "if", "for", "in", "true", "pi", "U", "ctrl", "inv", "pow", "bit", "end"]) \
+                            + r.choice(["1", "_", "2x", "_a", "0", "s9"]) + ("" if r.random() < 0.5 else str(len(mapping)))
+                    elif style == 0:
                         cand = "v%d_%s" % (len(mapping), "".join(r.choice("abcdefgh") for _ in range(3)))
                     elif style == 1:
                         cand = "_%s%d" % (r.choice(["q", "k", "ww", "Zed"]), r.randint(0, 999))
